@@ -181,7 +181,11 @@ OpUids(ev) ==
       [] ev.op = "recaps" ->
            IF ev.from \in DOMAIN g.enc THEN UNION {x.c : x \in g.enc[ev.from].tgx} ELSE {}
       [] OTHER -> {}
-OpCause(ev, dflt) == IF AliasBetween(OpUids(ev), DOMAIN ids) THEN "alias" ELSE dflt
+\* (a re-encapsulation opens with EVERY right of the master key -- full_decaps -- and its source may itself be
+\*  a re-encapsulation made under an older public key: any identifier shared by two attributes of the history
+\*  can make it succeed or fail against the name-level verdict, as for RecapsViol and the recaps flavour)
+HistoryAlias == \E a, b \in DOMAIN ids : a # b /\ ids[a] = ids[b] /\ ids[a] >= 0
+OpCause(ev, dflt) == IF AliasBetween(OpUids(ev), DOMAIN ids) \/ (ev.op = "recaps" /\ HistoryAlias) THEN "alias" ELSE dflt
 
 \* C09 contract and C06 (publishing a disabled right), C10, C18 details
 ContractViol(ev, v) ==
